@@ -178,10 +178,9 @@ struct Exh<'a> {
 }
 impl<'a> Exh<'a> {
     fn fail(&mut self, what: String) {
-        if self.failures.len() < 40 {
-            self.failures.push(json!({"part": "exhaustive", "kind": self.image as u64,
-                "ops": self.hist.clone(), "history": describe_hist(self.image, &self.hist), "what": what}));
-        }
+        let v = json!({"part": "exhaustive", "kind": self.image as u64,
+            "ops": self.hist.clone(), "history": describe_hist(self.image, &self.hist), "what": what});
+        push_failure(self.failures, v);
     }
     fn oracle<T: DataType>(&mut self, st: &Store<T>, before: Option<&Snap>, r: u64, after: &Snap) {
         let keys: Vec<PathBuf> = st.keys().cloned().collect();
@@ -244,6 +243,26 @@ impl<'a> Exh<'a> {
             let line = format!("{} {} {}\n", pre.join(","), self.depth - self.plen, self.cur);
             self.lines.push_str(&line);
         }
+    }
+}
+fn case_size(v: &Value) -> usize {
+    v["ops"].as_array().map_or(0, |a| a.len())
+}
+/// keep at most 40 failing inputs, preferring short ones
+fn push_failure(fs: &mut Vec<Value>, v: Value) {
+    if fs.len() < 40 {
+        fs.push(v);
+        return;
+    }
+    let (mut worst, mut wl) = (0, 0);
+    for (i, f) in fs.iter().enumerate() {
+        if case_size(f) >= wl {
+            worst = i;
+            wl = case_size(f);
+        }
+    }
+    if case_size(&v) < wl {
+        fs[worst] = v;
     }
 }
 fn describe_op(image: bool, i: u64) -> String {
@@ -542,9 +561,17 @@ fn check_read(
             x.fail(format!("image `{}` was handed out without the PNG signature", name));
         }
     }
-    if let Some((_, old)) = sh.known.iter().find(|(p, _)| p.as_path() == key) {
-        if old != res {
-            x.fail(format!("content of `{}` changed between two reads without an insert ({:?} then {:?})", name, old, res));
+    if let Some(pos) = sh.known.iter().position(|(p, _)| p.as_path() == key) {
+        let old = sh.known[pos].1.clone();
+        match (&old, res) {
+            (Ok(a), Ok(b)) if a == b => {}
+            (Err(_), Err(_)) => {}
+            // an implementation that retries after an error must hand out what is on disk now
+            (Err(_), Ok(b)) if disk_file(disk, key) == Some(b) => sh.known[pos].1 = res.clone(),
+            _ => x.fail(format!(
+                "content of `{}` changed between two reads without an insert ({:?} then {:?})",
+                name, old, res
+            )),
         }
         return;
     }
@@ -572,7 +599,12 @@ fn check_known<T: DataType>(x: &mut Exec, st: &Store<T>, sh: &Shadow, except: Op
             continue;
         }
         let now = st.get(k).map(|r| r.map(|b| b.to_vec()).map_err(|e| serr_code(&e)));
-        if now.as_ref() != Some(old) {
+        let same = match (&now, old) {
+            (Some(Ok(a)), Ok(b)) => a == b,
+            (Some(_), Err(_)) => true, // error entries are judged where they are read (check_read)
+            _ => false,
+        };
+        if !same {
             x.fail(format!("{}: entry `{}` was {:?}, is now {:?}", why, String::from_utf8_lossy(&text(k)), old, now));
         }
     }
@@ -1100,6 +1132,29 @@ fn gen_case(rng: &mut Rng, long: bool) -> Value {
     json!({"dd": dd, "di": di, "ops": ops})
 }
 
+/// drop operations one at a time as long as some clause of the property still fails
+fn shrink_case(c: &Value, sandbox: &Path, fails: Vec<String>) -> (Value, Vec<String>) {
+    let mut best = c.clone();
+    let mut what = fails;
+    let mut progress = true;
+    while progress {
+        progress = false;
+        let n = best["ops"].as_array().map_or(0, |a| a.len());
+        for i in (0..n).rev() {
+            let mut cand = best.clone();
+            cand["ops"].as_array_mut().unwrap().remove(i);
+            let mut x = Exec { fails: vec![], stats: BTreeMap::new(), verbose: false };
+            let _ = exec_case(&cand, sandbox, &mut x);
+            if !x.fails.is_empty() {
+                best = cand;
+                what = x.fails;
+                progress = true;
+            }
+        }
+    }
+    (best, what)
+}
+
 fn glyph_image_codes(raws: &[&str]) -> Vec<u64> {
     raws.iter()
         .map(|r| match norad::Image::new(PathBuf::from(r), None, AffineTransform::default()) {
@@ -1183,6 +1238,7 @@ pub fn main(a: &Args) {
         }
     }
     let ncorpus = inputs.len();
+    let mut shrunk = 0;
     for i in 0..ncases {
         inputs.push(gen_case(&mut rng, i % 10 == 0));
     }
@@ -1193,12 +1249,17 @@ pub fn main(a: &Args) {
         for (k, v) in x.stats {
             *stats.entry(k).or_insert(0) += v;
         }
-        if !x.fails.is_empty() && failures.len() < 40 {
-            let mut v = c.clone();
-            v["what"] = json!(x.fails);
+        if !x.fails.is_empty() {
+            let (mut v, what) = if shrunk < 6 {
+                shrunk += 1;
+                shrink_case(c, &sandbox_root, x.fails.clone())
+            } else {
+                (c.clone(), x.fails.clone())
+            };
+            v["what"] = json!(what);
             v["index"] = json!(i);
-            v["history"] = json!(c["ops"].as_array().unwrap().iter().map(describe_wop).collect::<Vec<_>>());
-            failures.push(v);
+            v["history"] = json!(v["ops"].as_array().unwrap().iter().map(describe_wop).collect::<Vec<_>>());
+            push_failure(&mut failures, v);
         }
         cases.push_str(&format!("({}, {})\n", case_to_gallina(c), tm.to_string()));
         jl.push_str(&c.to_string());
